@@ -180,7 +180,85 @@ Theorem C18_init_cavity_partial :
     get G v (cavity G gadd i (init_state G gscale true include fs pf priors dflt)) = Some (prior_of G priors v dflt).
 Proof. exact init_cavity_partial. Qed.
 
+(* what the code does NOW (the switch the correspondence runs): with or without prior factors, every cavity is
+   the prior as soon as the variable has a prior factor or two owners ... *)
+Theorem C18_init_cavity_current :
+  forall (G : Type) (gadd : G -> G -> G) (gopp : G -> G) (gzero : G) (gscale : Qc -> G -> G),
+  group_laws G gadd gopp gzero -> module_laws G gadd gscale ->
+  forall (include : bool) (fs : list (list var)) (pf : list var) (priors : mf G) (dflt : G) (i : nat) (v : var),
+    (include = true -> pf_ok fs pf = true) ->
+    i < length (graph_factors include fs pf) -> In v (nth i (graph_factors include fs pf) []) ->
+    (include = true \/ 2 <= length (filter (has_var v) fs)) ->
+    get G v (cavity G gadd i (init_state G gscale code_counts_occurrences include fs pf priors dflt)) = Some (prior_of G priors v dflt).
+Proof. exact init_cavity_current. Qed.
+(* ... and without prior factors a prior owned by one factor has no cavity (known finding) *)
+Theorem C18_init_cavity_without_prior_factors_current_refuted :
+  exists fs priors i v,
+    i < length (graph_factors false fs []) /\ In v (nth i (graph_factors false fs []) [])
+    /\ get N2 v (n_cavity i (init_state N2 n_scale code_counts_occurrences false fs [] priors n_zero)) <> Some (prior_of N2 priors v n_zero).
+Proof. exact init_cavity_without_prior_factors_current_refuted. Qed.
+
+(* EPMeanFieldSubset: the rescaled split factor_dist = own^s, cavity = cavity * own^(1-s) has the same product *)
+Theorem C18_subset_split :
+  forall (G : Type) (gadd : G -> G -> G) (gopp : G -> G) (gzero : G) (gscale : Qc -> G -> G),
+  group_laws G gadd gopp gzero -> module_laws G gadd gscale ->
+  forall (s : Qc) (o c : G), gadd (gscale s o) (gadd c (gscale (Q2Qc 1 - s)%Qc o)) = gadd o c.
+Proof. exact rescale_split. Qed.
+
+(* EPOptimiser.run, tied to the scripted optimiser: a visit with delta >= 1 recorded as a success leaves the
+   global approximation equal to the distribution the optimiser returned and records its result *)
+Theorem C18_visit_exact :
+  forall (G : Type) (gadd : G -> G -> G) (gopp : G -> G) (gzero : G) (gscale : Qc -> G -> G) (gvalid : G -> bool),
+  group_laws G gadd gopp gzero ->
+  forall (dl : delta) (sc : list (list (outcome G))) (i : nat) (st : state G) (log : list (nat * hentry G))
+         (s : bool) (t : Z) (n : mf G) (v : var) (nw : G),
+    i < length st -> is_full dl = true ->
+    nth (visit_count G i log) (nth i sc []) ORaise = OFit s t n ->
+    h_success (snd (visit G gadd gopp gscale gvalid dl sc i st log)) = true ->
+    get G v n = Some nw -> In v (keys G (own G i st)) ->
+    get G v (global G gadd (h_state (snd (visit G gadd gopp gscale gvalid dl sc i st log)))) = Some nw
+    /\ h_token (snd (visit G gadd gopp gscale gvalid dl sc i st log)) = Some t.
+Proof. exact visit_exact. Qed.
+(* one sweep visits a prefix of the factor order, in order *)
+Theorem C18_sweep_schedule :
+  forall (G : Type) (gadd : G -> G -> G) (gopp : G -> G) (gscale : Qc -> G -> G) (gvalid : G -> bool)
+         (dl : delta) (sc : list (list (outcome G))) (stop : option (nat * nat)) (order : list nat)
+         (st : state G) (log : list (nat * hentry G)) (st' : state G) (log' : list (nat * hentry G)) (b : bool),
+    sweep G gadd gopp gscale gvalid dl sc stop order st log = (st', log', b) ->
+    exists ext, log' = log ++ ext /\ chain G gadd gopp gscale gvalid dl st ext st'
+                /\ map fst ext = firstn (length ext) order.
+Proof. exact sweep_chain. Qed.
+(* the factor's message in the returned approximation is the one recorded by the factor's latest entry *)
+Theorem C18_run_latest_entry :
+  forall (G : Type) (gadd : G -> G -> G) (gopp : G -> G) (gscale : Qc -> G -> G) (gvalid : G -> bool)
+         (dl : delta) (st : state G) (a : list (nat * hentry G)) (i : nat) (e : hentry G) (b : list (nat * hentry G)) (st' : state G),
+    chain G gadd gopp gscale gvalid dl st (a ++ (i, e) :: b) st' -> (forall x, In x b -> fst x <> i) ->
+    own G i st' = own G i (h_state e).
+Proof. exact chain_latest_entry. Qed.
+
 (* ---------- result accessors: the most recent entry per factor ---------- *)
+(* the Model's accessors ARE latest_pos / previous_pos of the matching flag *)
+Theorem C18_accessors_unfold :
+  forall (G : Type) (h : list (hentry G)),
+    latest_successful G h = latest_pos G h_success h /\ latest_update G h = latest_pos G h_updated h
+    /\ previous_successful G h = previous_pos G h_success h /\ previous_update G h = previous_pos G h_updated h.
+Proof. exact (fun G h => conj eq_refl (conj eq_refl (conj eq_refl eq_refl))). Qed.
+(* previous_*: the most recent matching entry strictly before the latest one *)
+Theorem C18_previous :
+  forall (G : Type) (p : hentry G -> bool) (h : list (hentry G)),
+    previous_pos G p h = match latest_pos G p h with Some k => latest_pos G p (firstn k h) | None => None end.
+Proof. exact previous_pos_spec. Qed.
+(* EPResult.latest_results / latest_for(hierarchical): all the results, or an exception iff one factor has none *)
+Theorem C18_all_results :
+  forall (A : Type) (l : list (option A)),
+    match all_some l with Some r => map Some r = l | None => In None l end.
+Proof. exact @all_some_spec. Qed.
+(* latest_result as the code has it now *)
+Theorem C18_latest_result_current :
+  forall (G : Type) (h : list (hentry G)) (d : hentry G),
+    latest_result G code_latest_result_first h =
+    match latest_successful G h with Some k => Some (h_token (nth k h d)) | None => None end.
+Proof. exact latest_result_current_spec. Qed.
 Theorem C18_latest :
   forall (G : Type) (p : hentry G -> bool) (h : list (hentry G)) (d : hentry G),
     match latest_pos G p h with
@@ -217,3 +295,6 @@ Print Assumptions C18_init_cavity_refuted.
 Print Assumptions C18_run_chain.
 Print Assumptions C18_latest.
 Print Assumptions C18_stale_update_not_exact.
+Print Assumptions C18_init_cavity_current.
+Print Assumptions C18_visit_exact.
+Print Assumptions C18_previous.
